@@ -29,6 +29,9 @@ type BFSOptions struct {
 	MaxStates int64 // 0: none
 	SampleMax int
 	Env       *Env
+	// InitPath is applied (and checked) before the search starts; used to split one search
+	// into independent jobs by first operation.  MaxDepth counts operations after it.
+	InitPath []int
 }
 
 type bfsNode struct {
@@ -44,9 +47,29 @@ func BFS(res *Result, o BFSOptions, newSys func() Sys) {
 	}
 	seen := map[string]struct{}{}
 	init := newSys()
-	seen[init.Canon()] = struct{}{}
 	nops := init.NumOps()
-	frontier := []bfsNode{{}}
+	var initPath []uint16
+	for _, op := range o.InitPath {
+		initPath = append(initPath, uint16(op))
+	}
+	if len(initPath) > 0 {
+		last := int(initPath[len(initPath)-1])
+		canon, enabled, c := step(newSys, initPath[:len(initPath)-1], last)
+		if !enabled && c.fail == nil {
+			return // this first operation is not enabled in the initial state
+		}
+		res.Transitions++
+		res.Executions++
+		res.addOutcome(c.outcome)
+		if c.fail != nil {
+			res.Violations = append(res.Violations, Violation{Failure: *c.fail, Job: o.Job, Choices: pathInts(initPath[:len(initPath)-1], last), Notes: c.notes, Repro: "init"})
+			return
+		}
+		seen[canon] = struct{}{}
+	} else {
+		seen[init.Canon()] = struct{}{}
+	}
+	frontier := []bfsNode{{path: initPath}}
 	var states int64 = 1
 	stopped := ""
 	failKeys := map[string]int{}
